@@ -1,6 +1,1148 @@
 package main
 
-import "golang.org/x/tools/go/packages"
+// Concurrency-skeleton translator (Tie A): for every entry point of package gws, emit a term of the
+// skeleton IR (coq/Skel/IR.v): locks taken, reads / CAS of the closed flag, transport operations, callbacks,
+// accesses to guarded fields, queue / semaphore operations, spawns - in program order with branching, loops,
+// defers, returns, fully inlined and specialised on whether the opcode parameter is OpcodeCloseConnection.
+// Fail-closed: a construct that is not understood and that mentions a tracked entity becomes (Act AUnknown).
 
-// genSkel: concurrency-skeleton translation (filled in by skel_*.go); for now a no-op.
-func genSkel(pkgs []*packages.Package, out string) error { return nil }
+import (
+	"fmt"
+	"go/ast"
+	"go/constant"
+	"go/token"
+	"go/types"
+	"os"
+	"path/filepath"
+	"sort"
+	"strings"
+
+	"golang.org/x/tools/go/packages"
+)
+
+type skel struct {
+	fset    *token.FileSet
+	info    map[*ast.File]*types.Info
+	pkgInfo map[*types.Package]*types.Info
+	decls   map[*types.Func]*ast.FuncDecl
+	declPkg map[*types.Func]*types.Package
+	jobs    []jobLit // function literals pushed on the async queue
+	stack   []string
+	unknown []string
+	cbLit   *ast.FuncLit // the frame callback closure of doWriteFile
+	cbPkg   *types.Package
+}
+
+type jobLit struct {
+	lit *ast.FuncLit
+	env *env
+	pkg *types.Package
+}
+
+// env: what is known about the parameters of the function being translated
+type env struct {
+	opcode  map[string]string         // Opcode-typed variable -> "close" | "notclose" | "unknown"
+	funcs   map[string]funcVal        // function-typed variable -> what it is bound to
+	ifaces  map[string]types.Type     // interface-typed variable -> concrete static type of the argument
+	bools   map[string]string         // "cfg.broadcast" -> "true" | "false": literal fields of a struct argument
+	role    string                    // "server" | "client": Conn.isServer is fixed for the connection
+	sink    types.Type                // type of the writer given to the last flate.Writer.ResetDict
+	pkg     *types.Package
+	inQueue bool
+}
+
+type funcVal struct {
+	lit  *ast.FuncLit
+	fn   *types.Func
+	env  *env
+	user bool // user-supplied code
+}
+
+func (e *env) clone() *env {
+	n := &env{opcode: map[string]string{}, funcs: map[string]funcVal{}, ifaces: map[string]types.Type{}, bools: map[string]string{}, sink: e.sink, pkg: e.pkg, inQueue: e.inQueue, role: e.role}
+	for k, v := range e.opcode {
+		n.opcode[k] = v
+	}
+	for k, v := range e.bools {
+		n.bools[k] = v
+	}
+	for k, v := range e.funcs {
+		n.funcs[k] = v
+	}
+	for k, v := range e.ifaces {
+		n.ifaces[k] = v
+	}
+	return n
+}
+
+func (e *env) key() string {
+	var ks []string
+	for k, v := range e.opcode {
+		ks = append(ks, k+"="+v)
+	}
+	for k, v := range e.ifaces {
+		ks = append(ks, k+":"+v.String())
+	}
+	for k, v := range e.bools {
+		ks = append(ks, k+"?"+v)
+	}
+	for k, v := range e.funcs {
+		s := "user"
+		if v.lit != nil {
+			s = fmt.Sprint(v.lit.Pos())
+		} else if v.fn != nil {
+			s = v.fn.FullName()
+		}
+		ks = append(ks, k+"~"+s)
+	}
+	if e.sink != nil {
+		ks = append(ks, "sink:"+e.sink.String())
+	}
+	ks = append(ks, "role:"+e.role)
+	sort.Strings(ks)
+	return strings.Join(ks, ",")
+}
+
+// ---- Coq term helpers
+func seq(items ...string) string {
+	var xs []string
+	for _, it := range items {
+		if it != "" && it != "Skip" {
+			xs = append(xs, it)
+		}
+	}
+	if len(xs) == 0 {
+		return "Skip"
+	}
+	out := xs[len(xs)-1]
+	for i := len(xs) - 2; i >= 0; i-- {
+		out = "(Seq " + xs[i] + " " + out + ")"
+	}
+	return out
+}
+func choice(items ...string) string {
+	var xs []string
+	seen := map[string]bool{}
+	for _, it := range items {
+		if it == "Stuck" || seen[it] {
+			continue
+		}
+		seen[it] = true
+		xs = append(xs, it)
+	}
+	if len(xs) == 0 {
+		return "Stuck"
+	}
+	out := xs[len(xs)-1]
+	for i := len(xs) - 2; i >= 0; i-- {
+		out = "(Choice " + xs[i] + " " + out + ")"
+	}
+	return out
+}
+func act(a string) string { return "(Act " + a + ")" }
+
+func (s *skel) infoOf(p *types.Package) *types.Info { return s.pkgInfo[p] }
+
+func (s *skel) unk(what string, n ast.Node) string {
+	s.unknown = append(s.unknown, fmt.Sprintf("%s at %s", what, s.fset.Position(n.Pos())))
+	return act("AUnknown")
+}
+
+// ---- classification of a call
+func (s *skel) calleeOf(e *env, call *ast.CallExpr) (fn *types.Func, recv ast.Expr) {
+	info := s.infoOf(e.pkg)
+	switch f := call.Fun.(type) {
+	case *ast.Ident:
+		if o, ok := info.Uses[f].(*types.Func); ok {
+			return o, nil
+		}
+	case *ast.SelectorExpr:
+		if o, ok := info.Uses[f.Sel].(*types.Func); ok {
+			return o, f.X
+		}
+	case *ast.IndexExpr: // generic instantiation
+		if id, ok := f.X.(*ast.Ident); ok {
+			if o, ok := info.Uses[id].(*types.Func); ok {
+				return o, nil
+			}
+		}
+		if se, ok := f.X.(*ast.SelectorExpr); ok {
+			if o, ok := info.Uses[se.Sel].(*types.Func); ok {
+				return o, se.X
+			}
+		}
+	}
+	return nil, nil
+}
+
+func typeName(t types.Type) string {
+	for {
+		if p, ok := t.(*types.Pointer); ok {
+			t = p.Elem()
+			continue
+		}
+		break
+	}
+	if n, ok := t.(*types.Named); ok {
+		return n.Obj().Name()
+	}
+	return t.String()
+}
+
+func (s *skel) lockClass(e *env, recv ast.Expr) string {
+	info := s.infoOf(e.pkg)
+	// x.mu.Lock()  /  x.cpsLocker.Lock()  /  x.Lock() with embedded mutex
+	if se, ok := recv.(*ast.SelectorExpr); ok {
+		switch se.Sel.Name {
+		case "cpsLocker":
+			return "LCps"
+		case "dpsLocker":
+			return "LDps"
+		case "mu":
+			switch typeName(info.TypeOf(se.X)) {
+			case "Conn":
+				return "LConn"
+			case "workerQueue":
+				return "LQueue"
+			}
+		}
+	}
+	switch typeName(info.TypeOf(recv)) {
+	case "Map":
+		return "LMap"
+	case "smap":
+		return "LSmap"
+	}
+	return "LOther"
+}
+
+// guarded fields mentioned in an expression (selector names), as AAcc actions
+var fieldClass = map[string]string{
+	"cpsWindow": "FCpsWindow", "sw": "FCpsWindow", "dpsWindow": "FDpsWindow", "cpsWriter": "FCpsWriter",
+	"dpsReader": "FDpsState", "dpsBuffer": "FDpsState", "q": "FQueue", "curConcurrency": "FQueue",
+	"m": "FMapData", "data": "FSmapData", "continuationFrame": "FReaderState", "fh": "FReaderState", "br": "FReaderState",
+}
+
+// immutable-after-construction sub-fields: reading them is not an access to the guarded state
+var immutableSub = map[string]bool{"enabled": true, "size": true}
+
+func (s *skel) accesses(e *env, n ast.Node, write bool) []string {
+	var out []string
+	info := s.infoOf(e.pkg)
+	ast.Inspect(n, func(x ast.Node) bool {
+		if _, ok := x.(*ast.FuncLit); ok {
+			return false
+		}
+		se, ok := x.(*ast.SelectorExpr)
+		if !ok {
+			return true
+		}
+		if immutableSub[se.Sel.Name] {
+			if inner, ok := se.X.(*ast.SelectorExpr); ok {
+				if _, g := fieldClass[inner.Sel.Name]; g {
+					return false
+				}
+			}
+		}
+		if fc, ok := fieldClass[se.Sel.Name]; ok {
+			// only fields of the tracked structs
+			recv := typeName(info.TypeOf(se.X))
+			okRecv := map[string]bool{"Conn": true, "readerWrapper": true, "deflater": true, "workerQueue": true, "Map": true, "smap": true}
+			if okRecv[recv] && info.Selections[se] != nil && info.Selections[se].Kind() == types.FieldVal {
+				out = append(out, act(fmt.Sprintf("(AAcc %s %v)", fc, write)))
+			}
+		}
+		return true
+	})
+	return out
+}
+
+func isConnType(t types.Type) bool {
+	return t != nil && (t.String() == "net.Conn")
+}
+
+// ---- expressions: the actions performed by evaluating e, in order
+func (s *skel) expr(e *env, x ast.Expr) string {
+	if x == nil {
+		return "Skip"
+	}
+	var parts []string
+	switch v := x.(type) {
+	case *ast.CallExpr:
+		return s.call(e, v)
+	case *ast.FuncLit:
+		return "Skip" // creating a closure does nothing; calls are resolved where it is used
+	case *ast.BinaryExpr:
+		return seq(s.expr(e, v.X), s.expr(e, v.Y))
+	case *ast.UnaryExpr:
+		if v.Op == token.ARROW {
+			if typeName(s.infoOf(e.pkg).TypeOf(v.X)) == "channel" {
+				return seq(s.expr(e, v.X), act("ASemRel")) // <-c on the parallel-handler semaphore (channel.done)
+			}
+			return s.expr(e, v.X)
+		}
+		return s.expr(e, v.X)
+	case *ast.ParenExpr:
+		return s.expr(e, v.X)
+	case *ast.StarExpr:
+		return s.expr(e, v.X)
+	case *ast.SelectorExpr:
+		parts = append(parts, s.expr(e, v.X))
+		parts = append(parts, s.accesses(e, v, false)...)
+		return seq(parts...)
+	case *ast.IndexExpr:
+		return seq(s.expr(e, v.X), s.expr(e, v.Index))
+	case *ast.SliceExpr:
+		return seq(s.expr(e, v.X), s.expr(e, v.Low), s.expr(e, v.High), s.expr(e, v.Max))
+	case *ast.TypeAssertExpr:
+		return s.expr(e, v.X)
+	case *ast.CompositeLit:
+		for _, el := range v.Elts {
+			if kv, ok := el.(*ast.KeyValueExpr); ok {
+				parts = append(parts, s.expr(e, kv.Value))
+			} else {
+				parts = append(parts, s.expr(e, el))
+			}
+		}
+		return seq(parts...)
+	case *ast.KeyValueExpr:
+		return s.expr(e, v.Value)
+	}
+	return "Skip"
+}
+
+func (s *skel) opcodeOf(e *env, x ast.Expr) string {
+	info := s.infoOf(e.pkg)
+	if tv, ok := info.Types[x]; ok && tv.Value != nil && tv.Value.Kind() == constant.Int {
+		if v, _ := constant.Int64Val(tv.Value); v == 8 {
+			return "close"
+		}
+		return "notclose"
+	}
+	if id, ok := x.(*ast.Ident); ok {
+		if v, ok := e.opcode[id.Name]; ok {
+			return v
+		}
+	}
+	return "unknown"
+}
+
+func isOpcodeType(t types.Type) bool { return t != nil && strings.HasSuffix(t.String(), "gws.Opcode") }
+
+func (s *skel) call(e *env, call *ast.CallExpr) string {
+	info := s.infoOf(e.pkg)
+	// conversions and builtins
+	if tv, ok := info.Types[call.Fun]; ok && (tv.IsType() || tv.IsBuiltin()) {
+		var parts []string
+		for _, a := range call.Args {
+			parts = append(parts, s.expr(e, a))
+		}
+		return seq(parts...)
+	}
+	fn, recv := s.calleeOf(e, call)
+	var pre []string
+	if recv != nil {
+		pre = append(pre, s.expr(e, recv))
+	}
+	for _, a := range call.Args {
+		pre = append(pre, s.expr(e, a))
+	}
+	if fn == nil {
+		// call through a function-typed value
+		return seq(append(pre, s.callValue(e, call))...)
+	}
+	full := fn.FullName()
+	name := fn.Name()
+	switch {
+	case full == "(*sync.Mutex).Lock":
+		return seq(append(pre, act("(ALock "+s.lockClass(e, recv)+")"))...)
+	case full == "(*sync.Mutex).Unlock":
+		return seq(append(pre, act("(AUnlock "+s.lockClass(e, recv)+")"))...)
+	case full == "sync/atomic.LoadUint32":
+		return seq(append(pre, s.unk("LoadUint32 outside a condition", call))...)
+	case full == "sync/atomic.CompareAndSwapUint32":
+		return seq(append(pre, s.unk("CAS outside a condition", call))...)
+	case full == "sync/atomic.AddInt64":
+		return seq(append(pre, act("AAtomicAdd"))...)
+	case full == "sync/atomic.AddUint64":
+		return seq(pre...)
+	case full == "(*sync/atomic.Value).Store":
+		return seq(append(pre, act("AStoreEv"))...)
+	case full == "(*sync/atomic.Value).Load":
+		return seq(append(pre, act("ALoadEv"))...)
+	case full == "(*sync.Once).Do":
+		if lit, ok := call.Args[0].(*ast.FuncLit); ok {
+			return seq(append(pre, choice("Skip", s.block(e, lit.Body.List)))...)
+		}
+		return seq(append(pre, s.unk("Once.Do with a non-literal", call))...)
+	case strings.HasPrefix(full, "(net.Conn)."):
+		switch name {
+		case "Write":
+			return seq(append(pre, act("(AWire KHandshake)"))...)
+		case "Close":
+			return seq(append(pre, act("AConnClose"))...)
+		case "Read":
+			return seq(append(pre, act("AConnRead"))...)
+		case "SetDeadline", "SetReadDeadline", "SetWriteDeadline":
+			return seq(append(pre, act("AConnDeadline"))...)
+		}
+		return seq(pre...)
+	case strings.HasSuffix(full, "gws/internal.WriteN"):
+		return seq(append(pre, act("(AWire "+s.wireKind(e, call)+")"))...)
+	case strings.HasSuffix(full, "gws/internal.ReadN"), full == "io.ReadFull":
+		return seq(append(pre, act("AConnRead"))...)
+	case full == "net/http.ReadRequest", full == "net/http.ReadResponse":
+		return seq(append(pre, "(Loop true "+act("AConnRead")+")")...)
+	case full == "(*net/http.Request).Write":
+		return seq(append(pre, "(Loop true "+act("(AWire KHandshake)")+")")...)
+	case full == "(*bytes.Buffer).WriteTo":
+		if len(call.Args) == 1 && isConnType(info.TypeOf(call.Args[0])) {
+			return seq(append(pre, act("(AWire KHandshake)"))...)
+		}
+		return seq(pre...)
+	case full == "(*bufio.Reader).Reset":
+		return seq(pre...)
+	case strings.HasPrefix(full, "(*github.com/klauspost/compress/flate.Writer)."):
+		switch name {
+		case "ResetDict":
+			e.sink = info.TypeOf(call.Args[0])
+			if id, ok := call.Args[0].(*ast.Ident); ok && e.ifaces[id.Name] != nil {
+				e.sink = e.ifaces[id.Name]
+			}
+			return seq(pre...)
+		case "Write", "Flush", "Close":
+			// the compressor writes to the sink it was reset with, any number of times
+			if e.sink != nil && typeName(e.sink) == "flateWriter" {
+				if m := s.methodOf(e.sink, "Write"); m != nil {
+					return seq(append(pre, "(Loop true "+s.inline(e, m, nil, nil, call)+")")...)
+				}
+			}
+			return seq(pre...)
+		}
+		return seq(pre...)
+	case strings.HasPrefix(full, "(github.com/lxzan/gws.Event)."):
+		cb := map[string]string{"OnOpen": "CbOpen", "OnClose": "CbClose", "OnPing": "CbPing", "OnPong": "CbPong", "OnMessage": "CbMessage"}[name]
+		return seq(append(pre, act("(ACb "+cb+")"))...)
+	case full == "(io.Reader).Read":
+		return seq(append(pre, act("(ACb CbUser)"))...) // the reader given to WriteFile is user code
+	}
+	// interface method of an in-package interface, or io.Writer / io.WriterTo on a bound variable
+	if sig, ok := fn.Type().(*types.Signature); ok && sig.Recv() != nil {
+		if _, isIface := sig.Recv().Type().Underlying().(*types.Interface); isIface {
+			return seq(append(pre, s.ifaceCall(e, call, fn, recv))...)
+		}
+	}
+	// a function or method declared in one of our packages: inline
+	if d := s.declOf(fn); d != nil {
+		return seq(append(pre, s.inline(e, fn, call.Args, recv, call))...)
+	}
+	return seq(pre...)
+}
+
+func (s *skel) declOf(fn *types.Func) *ast.FuncDecl {
+	if d, ok := s.decls[fn.Origin()]; ok {
+		return d
+	}
+	return nil
+}
+
+func (s *skel) methodOf(t types.Type, name string) *types.Func {
+	for _, tt := range []types.Type{t, types.NewPointer(t)} {
+		ms := types.NewMethodSet(tt)
+		for i := 0; i < ms.Len(); i++ {
+			if ms.At(i).Obj().Name() == name {
+				if f, ok := ms.At(i).Obj().(*types.Func); ok {
+					return f
+				}
+			}
+		}
+	}
+	return nil
+}
+
+// kind of frame written by internal.WriteN(conn, frame): decided by the opcode variable in scope
+func (s *skel) wireKind(e *env, call *ast.CallExpr) string {
+	if v, ok := e.opcode["opcode"]; ok {
+		switch v {
+		case "close":
+			return "KClose"
+		case "notclose":
+			return "KData"
+		}
+		return "KAny"
+	}
+	return "KData" // Broadcaster.writeFrame: the frame was generated for a data opcode
+}
+
+// call through an interface-typed receiver
+func (s *skel) ifaceCall(e *env, call *ast.CallExpr, fn *types.Func, recv ast.Expr) string {
+	info := s.infoOf(e.pkg)
+	var concrete types.Type
+	if id, ok := recv.(*ast.Ident); ok {
+		concrete = e.ifaces[id.Name]
+	}
+	if concrete == nil {
+		if t := info.TypeOf(recv); t != nil {
+			if _, isIface := t.Underlying().(*types.Interface); !isIface {
+				concrete = t
+			}
+		}
+	}
+	if se, ok := recv.(*ast.SelectorExpr); ok && concrete == nil {
+		// c.r (readerWrapper.r: the user's reader), c.R (limitedReader.R: the inflater)
+		if se.Sel.Name == "r" && fn.Name() == "Read" {
+			return act("(ACb CbUser)")
+		}
+		if se.Sel.Name == "R" || se.Sel.Name == "dpsReader" {
+			return "Skip"
+		}
+	}
+	if concrete != nil {
+		if m := s.methodOf(concrete, fn.Name()); m != nil {
+			if s.declOf(m) != nil {
+				return s.inline(e, m, call.Args, recv, call)
+			}
+			// external concrete type (bytes.Buffer, flate.Writer ...)
+			if strings.Contains(concrete.String(), "flate.Writer") {
+				if e.sink != nil && typeName(e.sink) == "flateWriter" {
+					if w := s.methodOf(e.sink, "Write"); w != nil {
+						return "(Loop true " + s.inline(e, w, nil, nil, call) + ")"
+					}
+				}
+			}
+			return "Skip"
+		}
+	}
+	switch fn.Name() {
+	case "Len", "CheckEncoding", "Error", "Reset":
+		return "Skip"
+	}
+	// an interface declared outside our packages (and not one of the io interfaces our writers implement) cannot
+	// reach a tracked entity except through a callback; user-supplied in-package interfaces are callbacks
+	if t := info.TypeOf(recv); t != nil {
+		ts := t.String()
+		switch {
+		case ts == "io.Writer" || ts == "io.WriterTo" || ts == "io.Reader" || ts == "io.ReadCloser":
+			return s.unk("unresolved interface call "+fn.FullName(), call)
+		case strings.Contains(ts, "lxzan/gws.Dialer") || strings.Contains(ts, "lxzan/gws.Logger") || strings.Contains(ts, "lxzan/gws.SessionStorage"):
+			return act("(ACb CbUser)")
+		case !strings.Contains(ts, "lxzan/gws"):
+			return "Skip"
+		}
+	}
+	return s.unk("unresolved interface call "+fn.FullName(), call)
+}
+
+// call through a function-typed variable / field
+func (s *skel) callValue(e *env, call *ast.CallExpr) string {
+	info := s.infoOf(e.pkg)
+	switch f := call.Fun.(type) {
+	case *ast.Ident:
+		if t := info.TypeOf(f); t != nil && typeName(t) == "asyncJob" {
+			return s.anyJob() // whatever sits in the queue, not just the job this worker was started with
+		}
+		if fv, ok := e.funcs[f.Name]; ok {
+			return s.applyFuncVal(e, fv, call)
+		}
+		switch f.Name {
+		case "callback":
+			return act("(ACb CbUser)")
+		case "cancel":
+			return "Skip"
+		}
+		if _, ok := info.TypeOf(f).Underlying().(*types.Signature); ok {
+			return s.unk("call of unbound function value "+f.Name, call)
+		}
+	case *ast.SelectorExpr:
+		switch f.Sel.Name {
+		case "cb": // flateWriter.cb: the frame callback of doWriteFile
+			if s.cbLit != nil {
+				return s.block(s.cbEnv(e), s.cbLit.Body.List)
+			}
+			return s.unk("flateWriter.cb with no closure found", call)
+		case "Recovery", "Authorize", "NewSession", "NewDialer", "OnError", "OnRequest":
+			return act("(ACb CbUser)")
+		case "New": // sync.Pool.New
+			return "Skip"
+		}
+		return s.unk("call of function-typed field "+f.Sel.Name, call)
+	case *ast.FuncLit: // immediately invoked literal
+		return s.block(e, f.Body.List)
+	}
+	return "Skip"
+}
+
+var cbEnvSaved *env
+
+func (s *skel) cbEnv(e *env) *env {
+	if cbEnvSaved != nil {
+		n := cbEnvSaved.clone()
+		return n
+	}
+	return e
+}
+
+func (s *skel) applyFuncVal(e *env, fv funcVal, call *ast.CallExpr) string {
+	switch {
+	case fv.user:
+		return act("(ACb CbUser)")
+	case fv.lit != nil:
+		return "(Scope " + s.block(fv.env.clone(), fv.lit.Body.List) + " Skip)"
+	case fv.fn != nil:
+		return s.inline(e, fv.fn, nil, nil, call)
+	}
+	return "Skip"
+}
+
+// any job that may sit in the async queue
+func (s *skel) anyJob() string {
+	var alts []string
+	alts = append(alts, act("(ACb CbUser)")) // Conn.Async(f) with user code
+	for _, j := range s.jobs {
+		ee := j.env.clone()
+		ee.inQueue = true
+		alts = append(alts, "(Scope "+s.block(ee, j.lit.Body.List)+" Skip)")
+	}
+	return seq(act("ABoundary"), choice(alts...))
+}
+
+// inline a declared function: bind opcode / function / interface parameters from the call site
+func (s *skel) inline(e *env, fn *types.Func, args []ast.Expr, recv ast.Expr, at ast.Node) string {
+	d := s.declOf(fn)
+	if d == nil || d.Body == nil {
+		return "Skip"
+	}
+	info := s.infoOf(e.pkg)
+	ne := &env{opcode: map[string]string{}, funcs: map[string]funcVal{}, ifaces: map[string]types.Type{}, bools: map[string]string{}, sink: e.sink, pkg: s.declPkg[fn.Origin()], inQueue: e.inQueue, role: e.role}
+	// receiver of interface type bound to a concrete one (payload.WriteTo -> Bytes.WriteTo: nothing to bind)
+	idx := 0
+	if d.Type.Params != nil {
+		for _, field := range d.Type.Params.List {
+			for _, nm := range field.Names {
+				if idx < len(args) {
+					a := args[idx]
+					at := info.TypeOf(a)
+					pt := s.infoOf(ne.pkg).TypeOf(field.Type)
+					if cl, ok := a.(*ast.CompositeLit); ok {
+						for _, el := range cl.Elts {
+							if kv, ok := el.(*ast.KeyValueExpr); ok {
+								if k, ok := kv.Key.(*ast.Ident); ok {
+									if v, ok := kv.Value.(*ast.Ident); ok && (v.Name == "true" || v.Name == "false") {
+										ne.bools[nm.Name+"."+k.Name] = v.Name
+									}
+								}
+							}
+						}
+					}
+					if id, ok := a.(*ast.Ident); ok {
+						for k, v := range e.bools {
+							if strings.HasPrefix(k, id.Name+".") {
+								ne.bools[nm.Name+k[len(id.Name):]] = v
+							}
+						}
+					}
+					switch {
+					case isOpcodeType(pt):
+						ne.opcode[nm.Name] = s.opcodeOf(e, a)
+					case pt != nil && isFuncType(pt):
+						ne.funcs[nm.Name] = s.funcValOf(e, a)
+					case pt != nil && isInterface(pt):
+						if id, ok := a.(*ast.Ident); ok && e.ifaces[id.Name] != nil {
+							ne.ifaces[nm.Name] = e.ifaces[id.Name]
+						} else if at != nil && !isInterface(at) {
+							ne.ifaces[nm.Name] = at
+						}
+					}
+				} else if isOpcodeType(s.infoOf(ne.pkg).TypeOf(field.Type)) {
+					ne.opcode[nm.Name] = "unknown"
+				}
+				idx++
+			}
+		}
+	}
+	key := fn.FullName() + "{" + ne.key() + "}"
+	for _, k := range s.stack {
+		if k == key {
+			return s.unk("recursion through "+fn.FullName(), at)
+		}
+	}
+	if len(s.stack) > 40 {
+		return s.unk("inlining too deep at "+fn.FullName(), at)
+	}
+	s.stack = append(s.stack, key)
+	defer func() { s.stack = s.stack[:len(s.stack)-1] }()
+	return s.funcBody(ne, d)
+}
+
+func isFuncType(t types.Type) bool {
+	_, ok := t.Underlying().(*types.Signature)
+	return ok
+}
+func isInterface(t types.Type) bool {
+	_, ok := t.Underlying().(*types.Interface)
+	return ok
+}
+
+func (s *skel) funcValOf(e *env, a ast.Expr) funcVal {
+	info := s.infoOf(e.pkg)
+	switch v := a.(type) {
+	case *ast.FuncLit:
+		return funcVal{lit: v, env: e}
+	case *ast.Ident:
+		if fv, ok := e.funcs[v.Name]; ok {
+			return fv
+		}
+		if o, ok := info.Uses[v].(*types.Func); ok {
+			return funcVal{fn: o, env: e}
+		}
+		if v.Name == "nil" {
+			return funcVal{}
+		}
+		return funcVal{user: true}
+	case *ast.SelectorExpr:
+		if o, ok := info.Uses[v.Sel].(*types.Func); ok {
+			return funcVal{fn: o, env: e}
+		}
+		return funcVal{user: true}
+	}
+	return funcVal{user: true}
+}
+
+// a function body: Scope body defers
+func (s *skel) funcBody(e *env, d *ast.FuncDecl) string {
+	var defers []string
+	var body []ast.Stmt
+	for _, st := range d.Body.List {
+		if ds, ok := st.(*ast.DeferStmt); ok {
+			defers = append([]string{s.call(e, ds.Call)}, defers...) // LIFO
+			continue
+		}
+		body = append(body, st)
+	}
+	return "(Scope " + s.block(e, body) + " " + seq(defers...) + ")"
+}
+
+func (s *skel) block(e *env, list []ast.Stmt) string {
+	var parts []string
+	for _, st := range list {
+		parts = append(parts, s.stmt(e, st))
+	}
+	return seq(parts...)
+}
+
+// the two ways a condition can evaluate: (actions when true, actions when false)
+func (s *skel) cond(e *env, x ast.Expr) (string, string) {
+	info := s.infoOf(e.pkg)
+	switch v := x.(type) {
+	case *ast.ParenExpr:
+		return s.cond(e, v.X)
+	case *ast.UnaryExpr:
+		if v.Op == token.NOT {
+			t, f := s.cond(e, v.X)
+			return f, t
+		}
+	case *ast.BinaryExpr:
+		switch v.Op {
+		case token.LAND:
+			ta, fa := s.cond(e, v.X)
+			tb, fb := s.cond(e, v.Y)
+			return seq(ta, tb), choice(fa, seq(ta, fb))
+		case token.LOR:
+			ta, fa := s.cond(e, v.X)
+			tb, fb := s.cond(e, v.Y)
+			return choice(ta, seq(fa, tb)), seq(fa, fb)
+		case token.NEQ, token.EQL:
+			// opcode ==/!= OpcodeCloseConnection
+			if isOpcodeType(info.TypeOf(v.X)) {
+				if tv, ok := info.Types[v.Y]; ok && tv.Value != nil {
+					if c, _ := constant.Int64Val(tv.Value); c == 8 {
+						is := s.opcodeOf(e, v.X)
+						eqT, eqF := "Skip", "Skip"
+						switch is {
+						case "close":
+							eqF = "Stuck"
+						case "notclose":
+							eqT = "Stuck"
+						}
+						if v.Op == token.EQL {
+							return eqT, eqF
+						}
+						return eqF, eqT
+					}
+				}
+			}
+		}
+	case *ast.SelectorExpr:
+		if v.Sel.Name == "isServer" && typeName(info.TypeOf(v.X)) == "Conn" {
+			switch e.role {
+			case "server":
+				return "Skip", "Stuck"
+			case "client":
+				return "Stuck", "Skip"
+			}
+		}
+		if id, ok := v.X.(*ast.Ident); ok {
+			switch e.bools[id.Name+"."+v.Sel.Name] {
+			case "true":
+				return "Skip", "Stuck"
+			case "false":
+				return "Stuck", "Skip"
+			}
+		}
+	case *ast.CallExpr:
+		fn, recv := s.calleeOf(e, v)
+		if fn != nil {
+			switch {
+			case fn.Name() == "isClosed" && typeName(info.TypeOf(recv)) == "Conn":
+				return act("(ARead true)"), act("(ARead false)")
+			case fn.FullName() == "sync/atomic.CompareAndSwapUint32":
+				return act("(ACas true)"), act("(ACas false)")
+			case fn.FullName() == "sync/atomic.LoadUint32":
+				return act("(ARead true)"), act("(ARead false)")
+			}
+		}
+	}
+	eff := s.expr(e, x)
+	return eff, eff
+}
+
+func (s *skel) stmt(e *env, st ast.Stmt) string {
+	info := s.infoOf(e.pkg)
+	switch v := st.(type) {
+	case nil:
+		return "Skip"
+	case *ast.ExprStmt:
+		return s.expr(e, v.X)
+	case *ast.AssignStmt:
+		var parts []string
+		for _, r := range v.Rhs {
+			parts = append(parts, s.expr(e, r))
+		}
+		// bookkeeping of bindings: x := funcLit ; opcode = OpcodeContinuation ; isClosed result etc.
+		for i, l := range v.Lhs {
+			if id, ok := l.(*ast.Ident); ok && i < len(v.Rhs) {
+				if lit, ok := v.Rhs[i].(*ast.FuncLit); ok {
+					e.funcs[id.Name] = funcVal{lit: lit, env: e}
+				}
+				if isOpcodeType(info.TypeOf(l)) {
+					e.opcode[id.Name] = s.opcodeOf(e, v.Rhs[i])
+				}
+				if t := info.TypeOf(v.Rhs[i]); t != nil && !isInterface(t) && info.TypeOf(l) != nil && isInterface(info.TypeOf(l)) {
+					e.ifaces[id.Name] = t
+				} else if t != nil && !isInterface(t) {
+					if _, isPtr := t.(*types.Pointer); isPtr {
+						e.ifaces[id.Name] = t
+					}
+				}
+			}
+			parts = append(parts, s.accessesLhs(e, l)...)
+		}
+		return seq(parts...)
+	case *ast.DeclStmt:
+		var parts []string
+		if gd, ok := v.Decl.(*ast.GenDecl); ok {
+			for _, sp := range gd.Specs {
+				if vs, ok := sp.(*ast.ValueSpec); ok {
+					for i, val := range vs.Values {
+						parts = append(parts, s.expr(e, val))
+						if i < len(vs.Names) {
+							if lit, ok := val.(*ast.FuncLit); ok {
+								e.funcs[vs.Names[i].Name] = funcVal{lit: lit, env: e}
+							}
+							if t := info.TypeOf(val); t != nil && !isInterface(t) {
+								e.ifaces[vs.Names[i].Name] = t
+							}
+						}
+					}
+				}
+			}
+		}
+		return seq(parts...)
+	case *ast.IncDecStmt:
+		return seq(append([]string{s.expr(e, v.X)}, s.accessesLhs(e, v.X)...)...)
+	case *ast.BlockStmt:
+		return s.block(e, v.List)
+	case *ast.IfStmt:
+		init := s.stmt(e, v.Init)
+		ct, cf := s.cond(e, v.Cond)
+		e1 := e.clone()
+		thenS := s.block(e1, v.Body.List)
+		elseS := "Skip"
+		if v.Else != nil {
+			elseS = s.stmt(e.clone(), v.Else)
+		}
+		return seq(init, choice(seq(ct, thenS), seq(cf, elseS)))
+	case *ast.ForStmt:
+		init := s.stmt(e, v.Init)
+		canExit := "true"
+		ct, cf := "Skip", "Skip"
+		if v.Cond == nil {
+			canExit = "false"
+		} else {
+			ct, cf = s.cond(e, v.Cond)
+		}
+		inner := s.block(e.clone(), v.Body.List)
+		if strings.Contains(inner, "CONTINUE") {
+			if strings.Contains(inner, "Break") {
+				inner = s.unk("loop with both break and continue", v)
+			} else {
+				inner = "(CatchBreak " + strings.ReplaceAll(inner, "CONTINUE", "Break") + ")"
+			}
+		}
+		body := seq(ct, inner, s.stmt(e, v.Post))
+		return seq(init, "(Loop "+canExit+" "+body+")", cf)
+	case *ast.RangeStmt:
+		return seq(s.expr(e, v.X), "(Loop true "+s.block(e.clone(), v.Body.List)+")")
+	case *ast.ReturnStmt:
+		var parts []string
+		for _, r := range v.Results {
+			parts = append(parts, s.expr(e, r))
+		}
+		return seq(append(parts, "Return")...)
+	case *ast.BranchStmt:
+		switch v.Tok {
+		case token.BREAK:
+			return "Break"
+		case token.CONTINUE:
+			return "CONTINUE"
+		}
+		return s.unk("goto/fallthrough", v)
+	case *ast.GoStmt:
+		if lit, ok := v.Call.Fun.(*ast.FuncLit); ok {
+			var pre []string
+			for _, a := range v.Call.Args {
+				pre = append(pre, s.expr(e, a))
+			}
+			return seq(append(pre, act("ASpawn"), "(Spawn (Scope "+s.block(e.clone(), lit.Body.List)+" Skip))")...)
+		}
+		return seq(act("ASpawn"), "(Spawn "+s.call(e.clone(), v.Call)+")")
+	case *ast.DeferStmt:
+		return s.unk("defer not at function top level", v)
+	case *ast.SwitchStmt:
+		init := s.stmt(e, v.Init)
+		tag := s.expr(e, v.Tag)
+		var alts []string
+		hasDefault := false
+		for _, c := range v.Body.List {
+			cc := c.(*ast.CaseClause)
+			if cc.List == nil {
+				hasDefault = true
+			}
+			alts = append(alts, "(CatchBreak "+s.block(e.clone(), cc.Body)+")")
+		}
+		if !hasDefault {
+			alts = append(alts, "Skip")
+		}
+		return seq(init, tag, choice(alts...))
+	case *ast.TypeSwitchStmt:
+		var alts []string
+		for _, c := range v.Body.List {
+			cc := c.(*ast.CaseClause)
+			alts = append(alts, "(CatchBreak "+s.block(e.clone(), cc.Body)+")")
+		}
+		alts = append(alts, "Skip")
+		return seq(s.stmt(e, v.Init), choice(alts...))
+	case *ast.SelectStmt:
+		var alts []string
+		for _, c := range v.Body.List {
+			cc := c.(*ast.CommClause)
+			alts = append(alts, seq(s.stmt(e, cc.Comm), "(CatchBreak "+s.block(e.clone(), cc.Body)+")"))
+		}
+		return choice(alts...)
+	case *ast.SendStmt:
+		// c <- struct{}{} : the parallel-handler semaphore (channel.add); ch <- err in request(): a result channel
+		if typeName(info.TypeOf(v.Chan)) == "channel" {
+			return seq(s.expr(e, v.Value), act("ASemAcq"))
+		}
+		return s.expr(e, v.Value)
+	case *ast.LabeledStmt:
+		return s.stmt(e, v.Stmt)
+	case *ast.EmptyStmt:
+		return "Skip"
+	}
+	return s.unk(fmt.Sprintf("statement %T", st), st)
+}
+
+func (s *skel) accessesLhs(e *env, l ast.Expr) []string { return s.accesses(e, l, true) }
+
+// ---------------------------------------------------------------------------------------------
+
+type entry struct {
+	name  string
+	class string
+	fn    *types.Func
+}
+
+func genSkel(pkgs []*packages.Package, out string) error {
+	s := &skel{decls: map[*types.Func]*ast.FuncDecl{}, declPkg: map[*types.Func]*types.Package{}, pkgInfo: map[*types.Package]*types.Info{}}
+	var gws *packages.Package
+	for _, p := range pkgs {
+		s.fset = p.Fset
+		s.pkgInfo[p.Types] = p.TypesInfo
+		if !strings.HasSuffix(p.PkgPath, "/internal") {
+			gws = p
+		}
+		for _, f := range p.Syntax {
+			fname := filepath.Base(p.Fset.Position(f.Pos()).Filename)
+			if strings.HasSuffix(fname, "_test.go") || strings.HasPrefix(fname, "verif_") {
+				continue
+			}
+			for _, d := range f.Decls {
+				if fd, ok := d.(*ast.FuncDecl); ok {
+					if o, ok := p.TypesInfo.Defs[fd.Name].(*types.Func); ok {
+						s.decls[o] = fd
+						s.declPkg[o] = p.Types
+					}
+				}
+			}
+		}
+	}
+	if gws == nil {
+		return fmt.Errorf("package gws not loaded")
+	}
+	// pass 1: closures pushed on the async queue, and the frame callback of doWriteFile
+	for fn, d := range s.decls {
+		if d.Body == nil || s.declPkg[fn] != gws.Types {
+			continue
+		}
+		e0 := s.entryEnv(fn, d)
+		ast.Inspect(d.Body, func(n ast.Node) bool {
+			switch v := n.(type) {
+			case *ast.CallExpr:
+				if se, ok := v.Fun.(*ast.SelectorExpr); ok && (se.Sel.Name == "Push" || se.Sel.Name == "Async") && len(v.Args) == 1 {
+					if lit, ok := v.Args[0].(*ast.FuncLit); ok {
+						s.jobs = append(s.jobs, jobLit{lit: lit, env: e0, pkg: gws.Types})
+					}
+				}
+			case *ast.AssignStmt:
+				if fn.Name() == "doWriteFile" && len(v.Lhs) == 1 {
+					if id, ok := v.Lhs[0].(*ast.Ident); ok && id.Name == "cb" {
+						if lit, ok := v.Rhs[0].(*ast.FuncLit); ok {
+							s.cbLit, s.cbPkg = lit, gws.Types
+							cbEnvSaved = e0
+						}
+					}
+				}
+			case *ast.ValueSpec:
+				if fn.Name() == "doWriteFile" && len(v.Names) == 1 && v.Names[0].Name == "cb" && len(v.Values) == 1 {
+					if lit, ok := v.Values[0].(*ast.FuncLit); ok {
+						s.cbLit, s.cbPkg = lit, gws.Types
+						cbEnvSaved = e0
+					}
+				}
+			}
+			return true
+		})
+	}
+	sort.Slice(s.jobs, func(i, j int) bool { return s.jobs[i].lit.Pos() < s.jobs[j].lit.Pos() })
+	// entry points: discovered, not listed - exported methods of the connection-level types + constructors
+	var eps []entry
+	for fn, d := range s.decls {
+		if s.declPkg[fn] != gws.Types || d.Body == nil {
+			continue
+		}
+		class := ""
+		if d.Recv != nil && len(d.Recv.List) == 1 {
+			rt := typeName(gws.TypesInfo.TypeOf(d.Recv.List[0].Type))
+			exported := ast.IsExported(d.Name.Name)
+			switch {
+			case rt == "Conn" && d.Name.Name == "ReadLoop":
+				class = "EReader"
+			case rt == "Conn" && exported:
+				class = "EWrite"
+			case rt == "Broadcaster" && exported:
+				class = "EWrite"
+			case rt == "Upgrader" && (d.Name.Name == "Upgrade" || d.Name.Name == "UpgradeFromConn"):
+				class = "EHandshake"
+			case rt == "Server" && d.Name.Name == "RunListener":
+				class = "EHandshake"
+			case (rt == "ConcurrentMap" || rt == "smap") && exported:
+				class = "EMap"
+			case rt == "workerQueue" && (d.Name.Name == "Push" || d.Name.Name == "getJob"):
+				class = "EQueue"
+			}
+			if class != "" {
+				eps = append(eps, entry{rt + "_" + d.Name.Name, class, fn})
+			}
+		} else if d.Name.Name == "NewClient" || d.Name.Name == "NewClientFromConn" {
+			eps = append(eps, entry{d.Name.Name, "EHandshake", fn})
+		}
+	}
+	sort.Slice(eps, func(i, j int) bool { return eps[i].name < eps[j].name })
+	var b strings.Builder
+	b.WriteString("(* GENERATED by /verif/translator (skel.go) from /repo on every run - do not edit. *)\n")
+	b.WriteString("From Gws Require Import Skel.IR.\nFrom Coq Require Import List NArith Strings.String.\nImport ListNotations.\nLocal Open Scope string_scope.\n\n")
+	var names []string
+	var eps2 []entry
+	for _, ep := range eps {
+		if ep.class == "EWrite" || ep.class == "EReader" {
+			eps2 = append(eps2, entry{ep.name + "_server", ep.class, ep.fn}, entry{ep.name + "_client", ep.class, ep.fn})
+		} else {
+			eps2 = append(eps2, ep)
+		}
+	}
+	eps = eps2
+	for _, ep := range eps {
+		d := s.decls[ep.fn]
+		e := s.entryEnv(ep.fn, d)
+		if strings.HasSuffix(ep.name, "_server") {
+			e.role = "server"
+		} else if strings.HasSuffix(ep.name, "_client") {
+			e.role = "client"
+		}
+		for i := range s.jobs {
+			s.jobs[i].env.role = e.role
+		}
+		if cbEnvSaved != nil {
+			cbEnvSaved.role = e.role
+		}
+		s.stack = nil
+		term := s.funcBody(e, d)
+		fmt.Fprintf(&b, "Definition ep_%s : stmt :=\n  %s.\n\n", ep.name, term)
+		names = append(names, fmt.Sprintf("(\"%s\", %s, ep_%s)", ep.name, ep.class, ep.name))
+	}
+	fmt.Fprintf(&b, "Definition entry_points : list (string * epclass * stmt) :=\n  [%s].\n\n", strings.Join(names, ";\n   "))
+	// names as byte lists for the correspondence runner (the extracted code must not see Coq's string type)
+	var bnames []string
+	for _, ep := range eps {
+		var bs []string
+		for _, ch := range []byte(ep.name) {
+			bs = append(bs, fmt.Sprintf("%d", ch))
+		}
+		bnames = append(bnames, fmt.Sprintf("([%s]%%N, ep_%s)", strings.Join(bs, "; "), ep.name))
+	}
+	fmt.Fprintf(&b, "Definition entry_points_b : list (list N * stmt) :=\n  [%s].\n\n", strings.Join(bnames, ";\n   "))
+	fmt.Fprintf(&b, "Definition translator_unknowns : nat := %d.\n", len(s.unknown))
+	for _, u := range s.unknown {
+		fmt.Fprintf(&b, "(* UNKNOWN: %s *)\n", strings.ReplaceAll(u, "*)", "* )"))
+	}
+	return os.WriteFile(filepath.Join(out, "Skel.v"), []byte(b.String()), 0o644)
+}
+
+// environment at an entry point: an opcode parameter of a public API is a data/ping/pong opcode (documented use)
+func (s *skel) entryEnv(fn *types.Func, d *ast.FuncDecl) *env {
+	e := &env{opcode: map[string]string{}, funcs: map[string]funcVal{}, ifaces: map[string]types.Type{}, bools: map[string]string{}, pkg: s.declPkg[fn]}
+	info := s.infoOf(e.pkg)
+	if d.Recv != nil {
+		for _, f := range d.Recv.List {
+			for _, nm := range f.Names {
+				_ = nm
+			}
+		}
+	}
+	if d.Type.Params != nil {
+		for _, f := range d.Type.Params.List {
+			t := info.TypeOf(f.Type)
+			for _, nm := range f.Names {
+				switch {
+				case isOpcodeType(t):
+					e.opcode[nm.Name] = "notclose"
+				case t != nil && isFuncType(t):
+					e.funcs[nm.Name] = funcVal{user: true}
+				}
+			}
+		}
+	}
+	// Broadcaster methods read c.opcode (a data opcode by construction)
+	return e
+}
